@@ -1,4 +1,5 @@
-// native replay: C15/C05 cpputest_calloc_location - a product num*size that does not fit size_t must give NULL
+// native replay: C15/C05 cpputest_calloc_location - a product num*size that does not fit size_t must give NULL;
+// a calloc designated by the out-of-memory countdown must fail like any other allocation
 #include "CppUTest/TestHarness.h"
 #include "CppUTest/TestHarness_c.h"
 #include "replay.h"
@@ -9,7 +10,16 @@ int main(int argc, char **argv)
     bool overflow = size != 0 && num > (size_t) -1 / size;
     size_t wrapped = num * size;
     printf("calloc(%lu, %lu): product %s size_t, wrapped request %lu\n", (unsigned long) num, (unsigned long) size, overflow ? "does not fit" : "fits", (unsigned long) wrapped);
-    if (!overflow) NOT_REPRODUCED("no overflow on this input");
+    if (!overflow) {
+        /* the other clause: calloc takes part in the out-of-memory countdown like every other allocation */
+        size_t n = num, sz = size; if (wrapped > ((size_t) 1 << 20)) { n = 4; sz = 8; }
+        cpputest_malloc_set_out_of_memory_countdown(1);
+        void *q = cpputest_calloc_location(n, sz, "replay.c", 3);
+        cpputest_malloc_set_not_out_of_memory();
+        printf("countdown(1) then calloc(%lu, %lu): %s\n", (unsigned long) n, (unsigned long) sz, q ? "succeeds" : "NULL");
+        if (q) { cpputest_free_location(q, "replay.c", 4); REPRODUCED("the allocation designated by the countdown is a calloc and succeeds: calloc bypasses the countdown"); }
+        NOT_REPRODUCED("no overflow on this input, and calloc honours the countdown");
+    }
     if (wrapped > ((size_t) 1 << 30)) NOT_REPRODUCED("the wrapped request is too large for the platform malloc on this machine; try num=%lu size=2", (unsigned long) ((size_t) -1 / 2 + 1));
     void *p = cpputest_calloc_location(num, size, "replay.c", 1);
     if (p) { cpputest_free_location(p, "replay.c", 2); REPRODUCED("non-NULL block of %lu bytes returned for an overflowing product", (unsigned long) wrapped); }
